@@ -20,33 +20,64 @@ fn sym_ref(max: u32) -> Object {
     Object::Reference((t, 0))
 }
 
-/// dereference() on reference chains / cycles among 3 objects (+ dangling id 4): terminates within
-/// DEREF_LIMIT steps, never panics, returns the first non-reference object of the chain.
+/// dereference() on acyclic chains: object k is an integer or a reference to a HIGHER id (5 = dangling):
+/// returns the first non-reference object, or ObjectNotFound for a dangling end.
 #[kani::proof]
-#[kani::unwind(132)]
+#[kani::unwind(7)]
 #[kani::stub(std::hash::RandomState::new, fixed_random_state)]
-fn c13_dereference_cycles() {
+fn c13_dereference_chain() {
     let mut doc = Document::new();
-    let k: [u8; 3] = kani::any();
-    let mut id = 1;
-    while id <= 3 {
-        let o = if k[id as usize - 1] % 2 == 0 { sym_ref(4) } else { Object::Integer(id as i64) };
+    let t: [u32; 4] = kani::any();
+    let isref: [bool; 4] = kani::any();
+    let mut id = 1u32;
+    while id <= 4 {
+        let k = id as usize - 1;
+        kani::assume(t[k] > id && t[k] <= 5);
+        let o = if isref[k] { Object::Reference((t[k], 0)) } else { Object::Integer(id as i64) };
         put(&mut doc, id, o);
         id += 1;
     }
-    let start = sym_ref(4);
+    let start = Object::Reference((1, 0));
     let r = doc.dereference(&start);
+    // reference walk
+    let mut cur = 1u32;
+    let mut steps = 0;
+    while steps < 5 && cur <= 4 && isref[cur as usize - 1] {
+        cur = t[cur as usize - 1];
+        steps += 1;
+    }
     match &r {
         Ok((rid, obj)) => {
-            assert!(rid.is_some());
-            assert!(!matches!(obj, Object::Reference(_)), "dereference stopped on a reference");
+            assert!(cur <= 4, "dangling chain resolved to something");
+            assert!(*rid == Some((cur, 0)), "wrong final object id");
+            assert!(matches!(obj, Object::Integer(v) if *v == cur as i64), "wrong final object");
         }
-        Err(_) => {}
+        Err(Error::ObjectNotFound(idn)) => assert!(cur == 5 && *idn == (5, 0), "ObjectNotFound for a chain that resolves"),
+        Err(_) => panic!("unexpected error for an acyclic chain"),
     }
-    kani::cover!(r.is_ok());
-    kani::cover!(matches!(r, Err(Error::ReferenceLimit)));
-    kani::cover!(matches!(r, Err(Error::ObjectNotFound(_))));
+    kani::cover!(r.is_ok() && cur == 4);
+    kani::cover!(r.is_err());
     std::mem::forget(r);
+    std::mem::forget(doc);
+}
+
+/// A concrete 2-cycle (1 -> 2 -> 1) and a self reference: terminates with ReferenceLimit after
+/// DEREF_LIMIT steps (unwind 132 covers the 128-step limit; concrete, so symbolic execution folds it).
+#[kani::proof]
+#[kani::unwind(132)]
+#[kani::stub(std::hash::RandomState::new, fixed_random_state)]
+fn c13_dereference_cycle_limit() {
+    let mut doc = Document::new();
+    let self_ref: bool = kani::any();
+    put(&mut doc, 1, Object::Reference((if self_ref { 1 } else { 2 }, 0)));
+    put(&mut doc, 2, Object::Reference((1, 0)));
+    let start = Object::Reference((1, 0));
+    let r = doc.dereference(&start);
+    assert!(matches!(r, Err(Error::ReferenceLimit)), "reference cycle must end in ReferenceLimit");
+    let g = doc.get_object((2, 0));
+    assert!(g.is_err());
+    kani::cover!(self_ref);
+    std::mem::forget((r, g));
     std::mem::forget(doc);
 }
 
@@ -54,106 +85,153 @@ fn name(s: &[u8]) -> Object {
     Object::Name(s.to_vec())
 }
 
-/// Build a page-tree node. `kids` are object numbers (0 = no entry).
-fn node(is_pages: bool, typed: bool, kids: &[u32], nk: usize) -> Object {
+fn pages_node(kids: &[u32]) -> Object {
     let mut d = Dictionary::new();
-    if typed {
-        d.set("Type", name(if is_pages { b"Pages" } else { b"Page" }));
+    d.set("Type", name(b"Pages"));
+    let mut a = Vec::with_capacity(4);
+    let mut i = 0;
+    while i < kids.len() {
+        a.push(Object::Reference((kids[i], 0)));
+        i += 1;
     }
-    if is_pages {
-        let mut a = Vec::with_capacity(4);
-        let mut i = 0;
-        while i < nk {
-            a.push(Object::Reference((kids[i], 0)));
-            i += 1;
-        }
-        d.set("Kids", Object::Array(a));
-    }
+    d.set("Kids", Object::Array(a));
     Object::Dictionary(d)
 }
-
-/// Well-formed trees over nodes 3..=6 under root Pages node 2 (catalog 1): each node is a Page or a
-/// Pages node; kids of a node only point to higher-numbered nodes (forest, no sharing enforced by
-/// construction: node k's parent is chosen, not its kids).  Reference DFS vs page_iter().
-#[kani::proof]
-#[kani::unwind(12)]
-#[kani::stub(std::hash::RandomState::new, fixed_random_state)]
-fn c12_page_iter_tree4() {
-    // parent[k] for k in 3..=6 is in 2..k ; node k is Pages or Page; a node can only be a parent if it is Pages
-    let mut parent = [0u32; 7];
-    let mut is_pages = [false; 7];
-    is_pages[2] = true;
-    let mut k = 3;
-    while k <= 6 {
-        let p: u32 = kani::any();
-        kani::assume(p >= 2 && p < k as u32 && is_pages[p as usize]);
-        parent[k] = p;
-        is_pages[k] = kani::any();
-        k += 1;
-    }
+fn page_leaf() -> Object {
+    let mut d = Dictionary::new();
+    d.set("Type", name(b"Page"));
+    Object::Dictionary(d)
+}
+fn base_doc() -> Document {
     let mut doc = Document::new();
     let mut cat = Dictionary::new();
     cat.set("Type", name(b"Catalog"));
     cat.set("Pages", Object::Reference((2, 0)));
     put(&mut doc, 1, Object::Dictionary(cat));
     doc.trailer.set("Root", Object::Reference((1, 0)));
-    // kids lists in increasing id order (left-to-right)
-    let mut n = 2;
-    while n <= 6 {
-        let mut kids = [0u32; 4];
-        let mut nk = 0;
-        let mut c = n + 1;
-        while c <= 6 {
-            if parent[c] == n as u32 {
-                kids[nk] = c as u32;
-                nk += 1;
-            }
-            c += 1;
-        }
-        put(&mut doc, n as u32, node(is_pages[n], true, &kids, nk));
-        n += 1;
+    doc
+}
+
+/// Page tree with concrete node kinds and fan-out, SYMBOLIC kid references:
+///   2 = Pages [a b]   3 = Pages [c]   4 = Pages [d e]   5,6,7 = Page      a..e in 3..=8 (8 dangling)
+/// Covers every wiring of that shape: nested / interleaved / empty-ish intermediates, shared kids,
+/// cycles (a kid pointing back to 3 or 4), dangling kids.  Compared with a reference depth-first
+/// walk that carries the same visit budget the implementation documents (objects.len()).
+#[kani::proof]
+#[kani::unwind(12)]
+#[kani::stub(std::hash::RandomState::new, fixed_random_state)]
+#[kani::stub(std::string::String::from_utf8_lossy, crate::object::verif_kani::lossy_stub)]
+fn c12_page_iter_wiring() {
+    let k: [u32; 5] = kani::any();
+    let mut i = 0;
+    while i < 5 {
+        kani::assume(k[i] >= 3 && k[i] <= 8);
+        i += 1;
     }
-    // reference DFS (pre-order over increasing ids == depth-first, left-to-right for this construction)
-    let mut exp = [0u32; 5];
+    let wellformed = {
+        // forest: kids point to higher ids only, no node has two parents, nothing dangling
+        k[0] != k[1] && k[0] != k[2] && k[0] != k[3] && k[0] != k[4] && k[1] != k[2] && k[1] != k[3] && k[1] != k[4]
+            && k[2] != k[3] && k[2] != k[4] && k[3] != k[4]
+            && k[2] > 3 && k[3] > 4 && k[4] > 4 && k[0] <= 7 && k[1] <= 7 && k[2] <= 7 && k[3] <= 7 && k[4] <= 7
+    };
+    let mut doc = base_doc();
+    put(&mut doc, 2, pages_node(&[k[0], k[1]]));
+    put(&mut doc, 3, pages_node(&[k[2]]));
+    put(&mut doc, 4, pages_node(&[k[3], k[4]]));
+    put(&mut doc, 5, page_leaf());
+    put(&mut doc, 6, page_leaf());
+    put(&mut doc, 7, page_leaf());
+    // reference DFS with explicit stack of (node, next kid index); budget = number of objects (7)
+    let kids_of = |n: u32, j: usize| -> Option<u32> {
+        match (n, j) {
+            (2, 0) => Some(k[0]),
+            (2, 1) => Some(k[1]),
+            (3, 0) => Some(k[2]),
+            (4, 0) => Some(k[3]),
+            (4, 1) => Some(k[4]),
+            _ => None,
+        }
+    };
+    let mut exp = [0u32; 8];
     let mut ne = 0;
-    // explicit stack
-    let mut stack = [0u32; 8];
-    let mut sp = 0;
-    stack[sp] = 2;
-    sp += 1;
+    let mut st_node = [0u32; 10];
+    let mut st_idx = [0usize; 10];
+    let mut sp = 1;
+    st_node[0] = 2;
+    let mut budget = 7;
     let mut guard = 0;
-    while sp > 0 && guard < 8 {
+    while sp > 0 && guard < 24 {
         guard += 1;
-        sp -= 1;
-        let cur = stack[sp] as usize;
-        if !is_pages[cur] {
-            exp[ne] = cur as u32;
-            ne += 1;
-        } else {
-            // push children in reverse order
-            let mut c = 6;
-            while c > cur {
-                if parent[c] == cur as u32 {
-                    stack[sp] = c as u32;
+        let n = st_node[sp - 1];
+        let j = st_idx[sp - 1];
+        match kids_of(n, j) {
+            None => sp -= 1,
+            Some(kid) => {
+                if budget == 0 {
+                    break;
+                }
+                budget -= 1;
+                st_idx[sp - 1] = j + 1;
+                if kid >= 5 && kid <= 7 {
+                    exp[ne] = kid;
+                    ne += 1;
+                } else if kid == 3 || kid == 4 {
+                    st_node[sp] = kid;
+                    st_idx[sp] = 0;
                     sp += 1;
                 }
-                c -= 1;
             }
         }
     }
     let mut it = doc.page_iter();
+    let mut got = [0u32; 8];
+    let mut ng = 0;
     let mut i = 0;
-    while i < 5 {
-        let got = it.next();
-        if i < ne {
-            assert!(got == Some((exp[i], 0)), "page_iter is not the depth-first left-to-right order");
-        } else {
-            assert!(got.is_none(), "page_iter yields extra pages");
+    while i < 8 {
+        match it.next() {
+            Some(id) => {
+                assert!(id.1 == 0 && id.0 >= 5 && id.0 <= 7, "page_iter yielded something that is not a Page object");
+                got[ng] = id.0;
+                ng += 1;
+            }
+            None => break,
         }
         i += 1;
     }
-    kani::cover!(ne == 4);
-    kani::cover!(ne == 1 && is_pages[3] && is_pages[4] && parent[4] == 3);
+    assert!(ng <= 7, "page_iter exceeded its own visit budget");
+    if wellformed {
+        assert!(ng == ne, "page_iter does not yield exactly the leaf pages of a well-formed tree");
+        let mut i = 0;
+        while i < 8 {
+            if i < ne {
+                assert!(got[i] == exp[i], "page_iter is not the depth-first left-to-right order");
+            }
+            i += 1;
+        }
+    }
+    kani::cover!(wellformed && ne == 3);
+    kani::cover!(!wellformed && k[2] == 3);
     std::mem::forget(it);
+    std::mem::forget(doc);
+}
+
+/// get_pages numbers the pages 1..n in iteration order.
+#[kani::proof]
+#[kani::unwind(8)]
+#[kani::stub(std::hash::RandomState::new, fixed_random_state)]
+#[kani::stub(std::string::String::from_utf8_lossy, crate::object::verif_kani::lossy_stub)]
+fn c12_get_pages_numbering() {
+    let swap: bool = kani::any();
+    let (a, b) = if swap { (4u32, 3u32) } else { (3u32, 4u32) };
+    let mut doc = base_doc();
+    put(&mut doc, 2, pages_node(&[a, b]));
+    put(&mut doc, 3, page_leaf());
+    put(&mut doc, 4, page_leaf());
+    let pages = doc.get_pages();
+    assert!(pages.len() == 2);
+    assert!(pages.get(&1) == Some(&(a, 0)) && pages.get(&2) == Some(&(b, 0)), "pages are not numbered 1..n in tree order");
+    assert!(pages.get(&0).is_none() && pages.get(&3).is_none());
+    kani::cover!(swap);
+    std::mem::forget(pages);
     std::mem::forget(doc);
 }
